@@ -230,7 +230,7 @@ func runC20(c *Ctx) {
 	labelSrc := map[string][]string{
 		"method":  {"res.Method"},
 		"url":     {"res.URL"},
-		"status":  {"strconv.FormatUint(res.Code,10)", "strconv.Itoa(res.Code)", "strconv.FormatInt(res.Code,10)"},
+		"status":  {"decimal(res.Code)"},
 		"message": {"res.Error"},
 	}
 	want := map[string]struct{ method, arg string }{
@@ -244,11 +244,7 @@ func runC20(c *Ctx) {
 		fields = append(fields, f)
 	}
 	sort.Strings(fields)
-	resParam := ""
-	if len(obs.Params) == 2 {
-		resParam = obs.Params[1].Name()
-	}
-	norm := func(s string) string { return strings.ReplaceAll(s, resParam+".", "res.") }
+	norm := func(s string) string { return strings.ReplaceAll(s, "arg0.", "res.") }
 	for _, f := range fields {
 		for _, call := range obsFields[f] {
 			fnName := shortFn(call.Parent())
@@ -341,7 +337,7 @@ func runC20(c *Ctx) {
 			okL := true
 			why := ""
 			for k, lab := range v.labels {
-				got := norm(describeVal(args[k]))
+				got := normDecimal(norm(describeVal(args[k])))
 				match := false
 				for _, acc := range labelSrc[lab] {
 					if got == acc {
